@@ -8,23 +8,43 @@ from props import e1
 
 PROP = "C19"
 DIR = None
-GEN = re.compile(r"^\s*Generation (\d+) \((.*?)\)\s*(?:(\w+): (\S+) \((\w+)\))?\s*$")
-CHILD = re.compile(r"^Child History at (.*):\s*$")
+# the output is read by tokens, not by its exact wording: a generation line is a line with an ISO date; the number is the last
+# integer before the date, format / digest / action are recognised by their shape after it; a line without a date that names
+# the folder of a nested history starts that history's section
+ISO = re.compile(r"\d{4}-\d\d-\d\dT\d\d:\d\d:\d\d(?:\.\d+)?(?:[+-]\d\d:?\d\d|Z)?")
+DIG = re.compile(r"\b(?:[0-9a-f]{16}|[0-9a-f]{32}|[0-9a-f]{40}|c4[1-9A-HJ-NP-Za-km-z]{88})\b")
+FMT = re.compile(r"\b(md5|sha1|xxh64|xxh3|xxh128|xxh32|c4)\b")
+ACT = re.compile(r"\b(original|verified|failed|new)\b")
 
 
-def parse_info(out):
-    """{section path or '': [(number, date, fmt, digest, action)]}"""
+def same_instant(a, b):
+    if a == b:
+        return True
+    try:
+        import datetime
+        return datetime.datetime.fromisoformat(a.replace("Z", "+00:00")) == datetime.datetime.fromisoformat(b.replace("Z", "+00:00"))
+    except Exception:
+        return False
+
+
+def parse_info(out, sections=()):
+    """{section path or '': [(number, date, fmt, digest, action)]}; sections: absolute paths of the nested histories"""
     sec = ""
     res = {"": []}
     for ln in out.splitlines():
-        m = CHILD.match(ln)
-        if m:
-            sec = m.group(1)
-            res.setdefault(sec, [])
+        d = ISO.search(ln)
+        if d is None:
+            hits = [p for p in sections if re.search(re.escape(p) + r"/?(?:[:\s'\"),]|$)", ln)]
+            if hits:
+                sec = max(hits, key=len)
+                res.setdefault(sec, [])
             continue
-        g = GEN.match(ln)
-        if g:
-            res[sec].append((int(g.group(1)), g.group(2), g.group(3), g.group(4), g.group(5)))
+        nums = re.findall(r"\b\d+\b", ln[:d.start()])
+        if not nums:
+            continue
+        rest = ln[d.end():]
+        f, g, a = FMT.search(rest), DIG.search(rest), ACT.search(rest)
+        res[sec].append((int(nums[-1]), d.group(0), f.group(1) if f else None, g.group(0) if g else None, a.group(1) if a else None))
     return res
 
 
@@ -48,7 +68,7 @@ def judge_state(ctx, tree, now, case):
     elif r.exc is not None or r.exit != 0:
         V("info-fails", f"info ROOT: exit {r.exit} {r.exc} {r.tb}", exc=(r.exc or "").split(":")[0] or None)
     else:
-        got = parse_info(r.out)
+        got = parse_info(r.out, [os.path.join(root, hr) for hr in roots if hr and not ref.is_in_ascmhl(hr)])
         want = {}
         for hr in roots:
             if ref.is_in_ascmhl(hr):
@@ -60,7 +80,7 @@ def judge_state(ctx, tree, now, case):
             V("history-sections", f"info ROOT lists histories {sorted(gotg)}, on disk {sorted(want)}",
               missing=len(set(want) - set(gotg)), extra=len(set(gotg) - set(want)))
         for k in set(gotg) & set(want):
-            if gotg[k] != want[k]:
+            if len(gotg[k]) != len(want[k]) or any(a[0] != b[0] or not same_instant(a[1], b[1]) for a, b in zip(gotg[k], want[k])):
                 V("generation-list", f"info ROOT, history '{k or '.'}': printed {gotg[k]}, manifests on disk {want[k]}",
                   child=k != "")
     # info -sf for every recorded file
@@ -102,7 +122,9 @@ def judge_state(ctx, tree, now, case):
                 V("info-sf-fails", f"info {form} -sf {f}: exit {r2.exit} {r2.exc}", form=form, exc=(r2.exc or "").split(":")[0] or None)
                 continue
             got = [x for lst in parse_info(r2.out).values() for x in lst if x[2] is not None]
-            if sorted(got) != sorted(want) or [x[0] for x in got] != sorted(x[0] for x in got):
+            key = lambda x: (x[0], x[2] or "", x[3] or "", x[4] or "")
+            if sorted(map(key, got)) != sorted(map(key, want)) or [x[0] for x in got] != sorted(x[0] for x in got) or \
+                    any(not same_instant(a[1], b[1]) for a, b in zip(sorted(got, key=key), sorted(want, key=key))):
                 V("digest-lines", f"info {form} -sf {f} (history '{hr or '.'}'): printed {got}, recorded {want}",
                   form=form, in_child=hr != "", n_printed=min(len(got), 1))
     # a file that exists but has no history above it
